@@ -4,8 +4,10 @@ package all
 
 import (
 	"verifharness/hx"
+	"verifharness/mods/htlc"
 	"verifharness/mods/mt"
 	"verifharness/mods/nft"
+	"verifharness/mods/oracle"
 	"verifharness/mods/random"
 	"verifharness/mods/record"
 )
@@ -19,8 +21,10 @@ type Entry struct {
 // Entries lists the registered scenarios (extended as module harnesses land).
 func Entries() []Entry {
 	return []Entry{
+		{"htlc", func(e *hx.Env) hx.Runner { return htlc.New(e) }},
 		{"mt", func(e *hx.Env) hx.Runner { return mt.New(e) }},
 		{"nft", func(e *hx.Env) hx.Runner { return nft.New(e) }},
+		{"oracle", func(e *hx.Env) hx.Runner { return oracle.New(e) }},
 		{"random", func(e *hx.Env) hx.Runner { return random.New(e) }},
 		{"record", func(e *hx.Env) hx.Runner { return record.New(e) }},
 	}
